@@ -18,26 +18,26 @@ fn run_case(others: usize) -> Result<(), String> {
     let (tx, rx) = oneshot::channel::<()>();
     sched.future_desync(&qc, move || async move { rx.await.ok(); }).detach();
     let t0 = Instant::now();
-    while !format!("{:?}", qc).contains("WaitingForWake") && t0.elapsed() < Duration::from_secs(2) { thread::sleep(Duration::from_millis(5)); }
+    while !format!("{:?}", qc).contains("WaitingForWake") && t0.elapsed() < desync_replay::secs(2) { thread::sleep(desync_replay::ms(5)); }
     // queue A occupies the only pool thread
     let gate = Arc::new((Mutex::new(false), Condvar::new()));
     let qa = sched.create_job_queue();
     { let gate = gate.clone(); sched.desync(&qa, move || { let mut g = gate.0.lock().unwrap(); while !*g { g = gate.1.wait(g).unwrap(); } }); }
-    thread::sleep(Duration::from_millis(50));
+    thread::sleep(desync_replay::ms(50));
     // other queues: accepted, Pending in the schedule
     let ran = Arc::new(AtomicUsize::new(0));
     let mut qs = vec![];
     for _ in 0..others { let q = sched.create_job_queue(); let ran = ran.clone(); sched.desync(&q, move || { ran.fetch_add(1, Ordering::SeqCst); }); qs.push(q); }
     // a sync caller blocks on C; waking C lets it claim C (no pool thread is free)
     let waiter = { let (s, q) = (sched.clone(), qc.clone()); thread::spawn(move || s.sync(&q, || 7)) };
-    thread::sleep(Duration::from_millis(100));
+    thread::sleep(desync_replay::ms(100));
     tx.send(()).ok();
     let v = waiter.join().map_err(|_| "waiter panicked".to_string())?;
     if v != 7 { return Err("sync returned a wrong value".into()); }
     // free the pool thread: the other queues must now run with no further API call
     { *gate.0.lock().unwrap() = true; gate.1.notify_all(); }
     let t0 = Instant::now();
-    while ran.load(Ordering::SeqCst) < others && t0.elapsed() < Duration::from_secs(3) { thread::sleep(Duration::from_millis(10)); }
+    while ran.load(Ordering::SeqCst) < others && t0.elapsed() < desync_replay::secs(3) { thread::sleep(desync_replay::ms(10)); }
     if ran.load(Ordering::SeqCst) < others {
         return Err(format!("others={}: only {} of {} queues that were Pending in the schedule ran after a waiter claimed another queue; first = {:?}, scheduler = {:?}", others, ran.load(Ordering::SeqCst), others, qs[0], sched));
     }
